@@ -153,6 +153,32 @@ def check(c, item):
                 c.violation('C18/parameters-changed', 'parameter values changed by the sensitivity to %s (%s): %s -> %s' % (pname, method, before, after),
                             dict(case, param=pname, method=method))
                 m.set_params(before)
+    # the same state in other representations (a column of a species-by-condition table, a list, an integer array where the values
+    # are whole): the answers are those for the contiguous float array
+    table = np.zeros((n, 3)); table[:, 1] = x_model; table[:, 0] = 99.0; table[:, 2] = -5.0
+    reprs = [('strided-column', table[:, 1]), ('list', [float(v_) for v_ in x_model])]
+    if np.all(x_model == np.round(x_model)):
+        reprs.append(('integer-array', x_model.astype(np.int64)))
+    for rname, xr in reprs:
+        for pname in [p_ for p_ in before if p_ in P0][:2]:
+            try:
+                Zr = np.asarray(py_get_sensitivity_to_parameter(m, xr, pname, method='central_difference'), dtype=float)
+                Zc = np.asarray(py_get_sensitivity_to_parameter(m, x_model.copy(), pname, method='central_difference'), dtype=float)
+            except Exception as e:
+                c.violation('C18/sensitivity/representation/%s' % rname, 'the state given as a %s made the call raise %r' % (rname, e), dict(case, param=pname))
+                break
+            c.count('evaluations', 2); c.count('transitions', 2 * n)
+            if Zr.shape != Zc.shape or np.any(np.abs(Zr - Zc) > 1e-9 * (1 + np.abs(Zc))):
+                c.violation('C18/sensitivity/representation/%s' % rname, 'd f / d %s for the state given as a %s is %s, for the same values as a contiguous float array %s' % (
+                    pname, rname, Zr.tolist(), Zc.tolist()), dict(case, param=pname))
+                break
+        try:
+            Jr = np.asarray(py_get_jacobian(m, xr, method='central_difference'), dtype=float)
+            Jc = np.asarray(py_get_jacobian(m, x_model.copy(), method='central_difference'), dtype=float)
+            if Jr.shape != Jc.shape or np.any(np.abs(Jr - Jc) > 1e-9 * (1 + np.abs(Jc))):
+                c.violation('C18/jacobian/representation/%s' % rname, 'the Jacobian for the state given as a %s differs from the one for a contiguous float array' % rname, case)
+        except Exception as e:
+            c.violation('C18/jacobian/representation/%s' % rname, 'the state given as a %s made the call raise %r' % (rname, e), case)
     # the same Model object, re-parameterised: answers must follow the current values (no stale snapshot)
     P1 = {k_: (v_ * 1.5 + 0.2) for k_, v_ in P0.items()}
     m.set_params(dict(P1))
